@@ -266,7 +266,7 @@ class MultSpy:
 
 GROUP = {"run_ket": "state-vector evolution", "unitary": "state-vector evolution", "oper": "state-vector evolution",
          "step": "step-by-step state-vector simulation", "run_dm": "density-matrix evolution", "dm_ket": "density-matrix evolution",
-         "step_dm": "density-matrix evolution", "expanded": "expanded propagators", "compact": "compact product",
+         "step_dm": "density-matrix evolution", "kept": "kept states", "kept_dm": "kept states", "expanded": "expanded propagators", "compact": "compact product",
          "compact_phase_all": "compact product", "compact_phase_empty": "compact product (GLOBALPHASE with index list [])"}
 
 
@@ -297,9 +297,9 @@ def run_paths(case, want_trace=None):
     ket = Qobj(psi.reshape(D, 1), dims=[dims, [1] * N])
     rhoq = Qobj(rho, dims=[dims, dims])
     Xq = Qobj(X, dims=[dims, dims])
-    paths = set(case.get("paths") or ["run_ket", "run_dm", "dm_ket", "unitary", "expanded", "compact", "step", "step_dm", "oper"])
+    paths = set(case.get("paths") or ["run_ket", "run_dm", "dm_ket", "unitary", "expanded", "compact", "step", "step_dm", "oper", "kept"])
 
-    def attempt(path, fn, expected, tol=1e-9):
+    def attempt(path, fn, expected, tol=1e-9, what_diff=None):
         grp = GROUP.get(path, path)
         try:
             got = fn()
@@ -308,7 +308,8 @@ def run_paths(case, want_trace=None):
             return
         d = maxdiff(got, expected)
         if not d < tol:
-            fails.append((path, f"max deviation {d:.3g}", "deviation < 1e-9", f"{grp}: result differs from the ordered product of embedded matrices"))
+            fails.append((path, f"max deviation {d:.3g}", "deviation < 1e-9",
+                          what_diff or f"{grp}: result differs from the ordered product of embedded matrices"))
 
     qc = build(case)
     with EinsumSpy() as es:
@@ -332,6 +333,45 @@ def run_paths(case, want_trace=None):
             attempt("step", stepper, np.array([0.0]))
     if want_trace is not None:
         want_trace.extend(es.calls)
+    if "kept" in paths:
+        # every state object handed out (by .state after a step, by run()) and the caller's input must keep its value
+        # while the simulator goes on: compare all kept objects AGAIN after the whole circuit / a second run
+        def kept(mode, inp, inp_arr, evolve):
+            def f():
+                sim = CircuitSimulator(qc, mode=mode)
+                sim.initialize(inp)
+                held, refs = [], []
+                cur = inp_arr
+                for i in range(len(case["gates"])):
+                    sim.step()
+                    held.append(sim.state)
+                    cur = evolve(ops[i:i + 1], cur)
+                    refs.append(cur)
+                worst = 0.0
+                for h, r in zip(held, refs):
+                    worst = max(worst, maxdiff(h.full().reshape(r.shape), r))
+                first = sim.run(inp).get_final_states(0)
+                other = inp_arr[::-1].copy() if inp_arr.ndim == 1 else inp_arr.T.copy()
+                otherq = Qobj(other.reshape(inp.shape), dims=inp.dims)
+                second = sim.run(otherq).get_final_states(0)
+                final = evolve(ops, inp_arr)
+                worst = max(worst, maxdiff(first.full().reshape(final.shape), final))
+                worst = max(worst, maxdiff(second.full().reshape(final.shape), evolve(ops, other)))
+                for h, r in zip(held, refs):
+                    worst = max(worst, maxdiff(h.full().reshape(r.shape), r))
+                worst = max(worst, maxdiff(inp.full().reshape(inp_arr.shape), inp_arr))
+                return np.array([worst])
+            return f
+
+        def ev_ket(o, v):
+            return apply_circuit(o, N, v)
+
+        def ev_dm(o, r):
+            Eo = apply_circuit(o, N, np.eye(D))
+            return Eo @ r @ Eo.conj().T
+        msg = "a state returned earlier (by .state after a step, by run(), or the caller's input) was changed by a later step"
+        attempt("kept", kept("state_vector_simulator", ket, psi, ev_ket), np.array([0.0]), what_diff="kept states: " + msg)
+        attempt("kept_dm", kept("density_matrix_simulator", rhoq, rho, ev_dm), np.array([0.0]), what_diff="kept states: " + msg)
     if "run_dm" in paths:
         attempt("run_dm", lambda: qc.run(rhoq).full(), E @ rho @ E.conj().T)
     if "dm_ket" in paths:
@@ -669,6 +709,24 @@ def gen_random_circuit(rng, maxN=6, maxg=8):
         name = rng.choices(pool, weights=w)[0]
         gates.append(placed(rng, name, rng.sample(range(N), Q.N_QUBITS[name])))
     return dict(kind="circuit", N=N, gates=gates, users=users, seed=rng.randrange(2 ** 31))
+
+
+def gen_phase_circuit(rng):
+    """step-through circuits with GLOBALPHASE (non-zero angle) after one-/multi-qubit gates, in the middle and at the end"""
+    N = rng.choice([2, 3, 3, 4])
+    gates = []
+    for _ in range(rng.randint(2, 5)):
+        pool = [n for n in LIB if Q.N_QUBITS[n] <= N]
+        name = rng.choice(["RY", "RX", "SNOT", "RZ"]) if rng.random() < 0.5 else rng.choice(pool)
+        k = Q.N_QUBITS[name]
+        qs = [rng.randrange(1, N - 1)] if (k == 1 and N >= 3 and rng.random() < 0.6) else rng.sample(range(N), k)
+        gates.append(placed(rng, name, qs))
+        if rng.random() < 0.55:
+            gates.append(dict(name="GLOBALPHASE", targets=None, controls=None, arg=rng.choice([0.3, math.pi / 2, -1.1, 2.5])))
+    if rng.random() < 0.5:
+        gates.append(dict(name="GLOBALPHASE", targets=None, controls=None, arg=rng.choice([0.3, math.pi / 2, -1.1])))
+    return dict(kind="circuit", N=N, gates=gates, users={}, seed=rng.randrange(2 ** 31),
+                paths=["kept", "step", "step_dm", "run_ket", "unitary"])
 
 
 def gen_malformed(rng):
@@ -1015,6 +1073,8 @@ def correspond(ctx):
         pair_cases.append(c)
     for _ in range(ctx.n(150, 1200)):
         cases.append(gen_random_circuit(rng))
+    for _ in range(ctx.n(40, 300)):
+        cases.append(gen_phase_circuit(rng))
     for _ in range(ctx.n(25, 100)):
         cases.append(gen_malformed(rng))
     for _ in range(ctx.n(120, 800)):
@@ -1062,7 +1122,7 @@ def _check(case):
     if kind == "circuit":
         c = {k: v for k, v in case.items() if k not in ("path", "set_orders")}
         if "path" in case and is_wellformed(c):
-            c["paths"] = [case["path"] if not case["path"].startswith("compact") else "compact"]
+            c["paths"] = ["compact" if case["path"].startswith("compact") else ("kept" if case["path"].startswith("kept") else case["path"])]
             return [f for f in check_circuit(c) if f["input"]["path"] == case["path"]]
         return check_circuit(c)
     fake = Corr()
@@ -1085,6 +1145,8 @@ def search(ctx, broken):
         cases.append(dict(kind="circuit", N=3, gates=[placed(rng, name, qs)], users={}, seed=1))
     for _ in range(400):
         cases.append(gen_random_circuit(rng))
+    for _ in range(200):
+        cases.append(gen_phase_circuit(rng))
     for _ in range(40):
         cases.append(gen_gsp(rng, big=True))
     for _ in range(400):
